@@ -444,7 +444,8 @@ Lemma out_slot : forall V width fus lm len frames choices, 1 <= V -> 1 <= width 
   let bm := live_beam V width fus lm len frames choices in
   length P = width /\ length Ls = width /\ length Ps = width /\ sorted_desc Ps /\
   forall i q, nth i Ps NegInf = Fin q ->
-    valid bm i /\ nth i P [] = pref bm i /\ nth i Ls 0 = lens bm i.
+    valid bm i /\ nth i (probs_of bm) NegInf = Fin q /\
+    nth i P [] = pref bm i /\ nth i Ls 0 = lens bm i.
 Proof.
   intros V width fus lm len frames choices Vpos Wpos C.
   rewrite (search_obs V width fus lm len frames choices Vpos Wpos C).
@@ -468,7 +469,7 @@ Proof.
     { apply sorted_eps_app_neginf. destruct (probs_of bm) as [|x [|y l]]; cbn in PL; try lia. reflexivity. }
     split; [lia|]. split; [lia|]. split; [lia|]. split; [apply sorted_eps_desc; auto|].
     intros i q Hq. destruct i.
-    + rewrite app_nth1 in Hq by lia. split; [eapply VAL; eauto|].
+    + rewrite app_nth1 in Hq by lia. split; [eapply VAL; eauto|]. split; [exact Hq|].
       rewrite !nth_repeat_if. replace (0 <? width) with true by (symmetry; apply Nat.ltb_lt; lia). auto.
     + exfalso. rewrite app_nth2 in Hq by lia. rewrite nth_repeat_if in Hq.
       destruct (S i - length (probs_of bm) <? width - 1); discriminate.
@@ -482,8 +483,47 @@ Proof.
       - reflexivity.
       - apply H. discriminate. }
     split; [auto|]. split; [auto|]. split; [auto|]. split; [apply sorted_eps_desc; auto|].
-    intros i q Hq. pose proof (VAL i q Hq) as Vi. split; auto. destruct Vi as [Li _]. change (i < kpb bm) in Li.
+    intros i q Hq. pose proof (VAL i q Hq) as Vi. split; auto. split; [exact Hq|]. destruct Vi as [Li _]. change (i < kpb bm) in Li.
     split; [|reflexivity].
+    rewrite (nth_indep _ [] (pref bm 0)); [|rewrite map_length, seq_length; lia].
+    rewrite map_nth, seq_nth by lia. reflexivity.
+Qed.
+
+Lemma nothing_pruned_app : forall V width fus lm len f1 f2 choices t bm,
+  nothing_pruned V width fus lm len t (f1 ++ f2) choices bm = true ->
+  nothing_pruned V width fus lm len t f1 choices bm = true.
+Proof.
+  intros V width fus lm len. induction f1 as [|[nonext blank] f1]; intros f2 choices t bm H; auto.
+  cbn [app nothing_pruned] in *. apply andb_true_iff in H. destruct H as [H1 H2].
+  rewrite H1. apply (IHf1 f2). auto.
+Qed.
+
+(* every valid slot of the last live beam is returned, at its own position *)
+Lemma out_slot_rev : forall V width fus lm len frames choices, 1 <= V -> 1 <= width ->
+  choices_ok V width fus lm 0%Qc len 0 frames choices init_beam = true ->
+  let '(P, Ls, Ps) := observe (search V width fus lm len frames choices) in
+  let bm := live_beam V width fus lm len frames choices in
+  forall k, valid bm k ->
+    k < width /\ nth k P [] = pref bm k /\ nth k Ps NegInf = nth k (probs_of bm) NegInf.
+Proof.
+  intros V width fus lm len frames choices Vpos Wpos C.
+  rewrite (search_obs V width fus lm len frames choices Vpos Wpos C).
+  destruct (live_facts V width fus lm len frames choices Vpos Wpos C) as (I & T & H).
+  pose proof (live_kp V width fus lm len frames choices Vpos Wpos C) as KP.
+  set (bm := live_beam V width fus lm len frames choices) in *.
+  pose proof (inv_wf V bm I) as W. pose proof (wf_wfv bm W) as Wv.
+  assert (PL : length (probs_of bm) = kpb bm).
+  { unfold probs_of. rewrite map2_length; auto. rewrite (wfv_b bm Wv). reflexivity. }
+  unfold bobs. destruct ((kpb bm =? 1) && negb (width =? 1)) eqn:Cnd.
+  - apply andb_true_iff in Cnd. destruct Cnd as [C1 C2]. apply Nat.eqb_eq in C1.
+    intros k [Lk _]. change (k < kpb bm) in Lk. assert (k = 0) by lia. subst k.
+    split; [lia|]. rewrite nth_repeat_if. replace (0 <? width) with true by (symmetry; apply Nat.ltb_lt; lia).
+    split; auto. rewrite app_nth1 by lia. reflexivity.
+  - assert (KW : kpb bm = width).
+    { destruct KP as [KP|KP]; auto. apply andb_false_iff in Cnd. destruct Cnd as [Cnd|Cnd].
+      - apply Nat.eqb_neq in Cnd. lia.
+      - apply negb_false_iff, Nat.eqb_eq in Cnd. lia. }
+    intros k [Lk _]. change (k < kpb bm) in Lk. split; [lia|]. split; auto.
     rewrite (nth_indep _ [] (pref bm 0)); [|rewrite map_length, seq_length; lia].
     rewrite map_nth, seq_nth by lia. reflexivity.
 Qed.
